@@ -270,7 +270,7 @@ func (w *c03World) runBlocks(blocks int, dt time.Duration) (string, string) {
 
 func TestC03(t *testing.T) {
 	rec := ev.For("C03")
-	rec.Describe("fork-mode histories: 1-4 real files (1..8192 bytes at chunk size 1024, MaxProofs 2-5), 2-6 provers (some without a provider record) joining in generated order with real Merkle proofs, a generated subset of (prover,file) pairs at generated list positions stops proving, in a third of the worlds provers open attestation forms (form size set to 2 by governance) that nobody completes, gauges of 1..1e15 ujkl (a third of them with a second deposit of 1..1e12 uatom, small ones weighted up so that single shares round to zero) funded by the calls BuyStorage makes, reward blocks after youth with hour-scale block times, followed by further reward blocks on the state the first left behind. Oracle at each reward block from before/after snapshots: prover lists == before minus missed (sets, no duplicates); burn counters rise by exactly the number of missed files; per denomination each counted prover's payout within [floor(R*c/N_all)-1, floor(R*c/N_counted)+1]; pairwise proportionality; uncounted accounts unchanged; sum paid <= released. Non-trivial = >=2 counted provers, >=1 missed prover not in the last list position, R>0; distinct = distinct traces.",
+	rec.Describe("fork-mode histories: 1-4 real files (1..8192 bytes at chunk size 1024, MaxProofs 2-5), 2-6 provers (some without a provider record; in a quarter of the worlds the files' owner is one of them) joining in generated order with real Merkle proofs, a generated subset of (prover,file) pairs at generated list positions stops proving, in a third of the worlds provers open attestation forms (form size set to 2 by governance) that nobody completes, gauges of 1..1e15 ujkl (a third of them with a second deposit of 1..1e12 uatom, small ones weighted up so that single shares round to zero) funded by the calls BuyStorage makes, reward blocks after youth with hour-scale block times, followed by further reward blocks on the state the first left behind. Oracle at each reward block from before/after snapshots: prover lists == before minus missed (sets, no duplicates); burn counters rise by exactly the number of missed files; per denomination each counted prover's payout within [floor(R*c/N_all)-1, floor(R*c/N_counted)+1]; pairwise proportionality; uncounted accounts unchanged; sum paid <= released. Non-trivial = >=2 counted provers, >=1 missed prover not in the last list position, R>0; distinct = distinct traces.",
 		"'share' is accepted over either denominator (all listed at block start, as the code does, or counted only)",
 		"prover-less files being dropped is not asserted here (C07/C17 cover it)")
 	c := chain.New(chain.GenesisOpts{NumAccounts: 1, Balance: sdk.NewCoins(sdk.NewInt64Coin("ujkl", 3_000_000_000_000_000), sdk.NewInt64Coin("uatom", 3_000_000_000_000_000)),
@@ -300,6 +300,16 @@ func TestC03(t *testing.T) {
 		nProv := rapid.IntRange(2, 6).Draw(rt, "provers")
 		unreg := rapid.IntRange(0, 1).Draw(rt, "unregistered")
 		w := newC03WorldFunded(c, W, C, nProv, unreg)
+		// in a quarter of the worlds the owner of the files keeps replicas of them itself, like any other prover
+		if rapid.IntRange(0, 3).Draw(rt, "ownerProves") == 0 {
+			if rapid.Bool().Draw(rt, "ownerRegistered") {
+				must2(w.initProvider(w.owner, "https://owner.ownerdomain.net"))
+				w.registered[w.owner.Bech] = true
+			}
+			w.provs = append(w.provs, w.owner)
+			w.logf("the owner %s also acts as a prover", short(w.owner.Bech))
+			rec.Count("worlds-where-the-owner-proves-its-own-files")
+		}
 		// in a third of the worlds governance has set small attestation forms (2 judges, both needed), so that provers can
 		// open forms among the few providers here; nobody ever completes one, so a form changes nobody's obligations
 		openForms := nProv-unreg >= 3 && rapid.IntRange(0, 2).Draw(rt, "smallAttestationForms") == 0
